@@ -638,6 +638,21 @@ def register(S):
     @S.pat(r"^<core::option::Option<T> as core::cmp::PartialEq>::(eq|ne)$|^core::array::equality::<impl core::cmp::PartialEq<\[U; N\]> for \[T; N\]>::(eq|ne)$|^<std::time::SystemTime as core::cmp::PartialEq>::(eq|ne)$|^<f(32|64) as core::cmp::PartialEq>::(eq|ne)$|^<alloc::string::String as core::cmp::PartialEq>::(eq|ne)$|^<alloc::vec::Vec<T, A1> as core::cmp::PartialEq<alloc::vec::Vec<U, A2>>>::(eq|ne)$")
     def opaque_eq(ctx):
         a, b = ctx.deref(ctx.args[0]), ctx.deref(ctx.args[1])
+        neg = ctx.path.endswith("ne")
+        if isinstance(a, AdtVal) and isinstance(b, AdtVal) and a.path == OPTION and b.path == OPTION:
+            # structural comparison of two known-shape options
+            if a.variant != b.variant:
+                return ctx.ret(IntVal.const(BOOL, 1 if neg else 0))
+            if a.variant == 0:
+                return ctx.ret(IntVal.const(BOOL, 0 if neg else 1))
+            x, y = a.fields[0], b.fields[0]
+            for _ in range(3):
+                if isinstance(x, RefVal):
+                    x = ctx.deref(x)
+                if isinstance(y, RefVal):
+                    y = ctx.deref(y)
+            if isinstance(x, IntVal) and isinstance(y, IntVal):
+                return ctx.ret(ctx.ip.binop(ctx.st, "Ne" if neg else "Eq", x, y))
         tags = frozenset()
         for x in (a, b):
             tags |= _all_tags(x)
@@ -799,6 +814,18 @@ def register(S):
             a = ctx.args[0]
             return ctx.ret(some(RefVal(a.loc[:-1] + (a.loc[-1] + (("i", len(elems) - 1),),), False)))
         return ctx.ret(ctx.top_ret())
+
+    @S.on("alloc::vec::Vec::<T, A>::pop")
+    def vec_pop(ctx):
+        ref = ctx.args[0]
+        v = ctx.deref(ref)
+        if isinstance(v, Opaque) and v.kind == "vec" and v.get("elems") is not None:
+            es = v.get("elems")
+            if not es:
+                return ctx.ret(NONE)
+            ctx.ip.write_loc(ctx.st, ref.loc, v.set(elems=es[:-1], n=len(es) - 1))
+            return ctx.ret(some(es[-1]))
+        raise Inconclusive("Vec::pop on a vector of unknown contents in %s" % ctx.fr.fn["path"])
 
     @S.on("alloc::vec::Vec::<T, A>::clear", "alloc::string::String::clear")
     def vec_clear(ctx):
